@@ -5,7 +5,7 @@
                      ArchiveFile.is_directory/is_symlink/is_junction/is_socket/posix_mode/st_fmt (l.144-235)
                      SevenZipFile.writeall/_writeall (l.708-728, 1067-1076)     items, walk
                      SevenZipFile._sanitize_archive_arcname (l.911-928)           sanitize
-                     Worker._find_link_target (l.1512-1533)                       rewrite_links
+                     Worker._find_link_target                                     find_link_target, store_links
                      SevenZipFile._extract (l.529-656), Worker._extract_single (l.1372-1449)   rebuild
      py7zr/helpers.py get_sanitized_output_path/canonical_path/is_path_valid     canon_out, link_inside
    Definitions only (all computable, extracted); proofs are in ModeProofs.v and Walk.v.
@@ -253,14 +253,15 @@ Record wctx := mkC {
   c_abs : bool;               (* the path given to writeall is absolute *)
   c_base : path;              (* its components; [] for '.' *)
   c_arc : option path;        (* components of arcname when given *)
-  c_cwd : option path;        (* path, relative to the root given to writeall, of the directory that is the
-                                 process's current directory (path.samefile('.')), if it is inside the tree *)
   c_deref : bool }.
 
-(* `if not path.samefile("."): self.write(path, arcname)` *)
+(* `if not (arcname is None and str(path) == "."): self.write(path, arcname)`: only the bare '.' given to
+   writeall without an arcname has no entry of its own (paths below it are never '.') *)
+Definition is_bare_dot (c : wctx) : bool :=
+  negb (c_abs c) && match c_base c with [] => true | _ => false end && match c_arc c with None => true | Some _ => false end.
 Definition skipped (c : wctx) (it : item) : bool :=
-  match i_kind it, c_cwd c with
-  | KDir, Some w => path_eqb (i_rel it) w
+  match i_kind it, i_rel it with
+  | KDir, [] => is_bare_dot c
   | _, _ => false
   end.
 
@@ -272,41 +273,17 @@ Definition norm_link (tg : path) : path :=
 
 Definition origin := (bool * path)%type.     (* (absolute?, components) of f["origin"] *)
 
-Fixpoint common_len (a b : path) : nat :=
-  match a, b with
-  | x :: a', y :: b' => if name_eqb x y then S (common_len a' b') else O
-  | _, _ => O
-  end.
-(* os.path.relpath(p, start) for p, start relative, without '..' (both are below the current directory) *)
-Definition relpath (p start : path) : path :=
-  let i := common_len p start in
-  match repeat dotdot (length start - i) ++ skipn i p with [] => [dot] | l => l end.
-
-(* linkname == self.files[j].origin.as_posix(): a relative text equals only a relative origin; "." for [] *)
-Definition origin_text (o : origin) : path := match snd o with [] => [dot] | l => l end.
-Definition captured (ln : path) (os : list origin) : bool :=
-  existsb (fun o => negb (fst o) && path_eqb ln (origin_text o)) os.
-
-Definition find_link_target (os : list origin) (self : origin) (tg : path) : path :=
-  let ln := norm_link tg in
-  if captured ln os then relpath ln (removelast (snd self)) else ln.
+(* a relative link text is stored as pathlib normalises it (an absolute text, which _find_link_target re-bases
+   when it names an archived member, is outside the model: link texts here are relative) *)
+Definition find_link_target (tg : path) : path := norm_link tg.
 
 Definition origin_of (c : wctx) (it : item) : origin := (c_abs c, c_base c ++ i_rel it).
 
-(* members in order; `seen` = origins of self.files so far (the member itself is appended before it is written) *)
-Fixpoint rewrite_links (c : wctx) (seen : list origin) (its : list item) : list item :=
-  match its with
-  | [] => []
-  | it :: rest =>
-    let o := origin_of c it in
-    let seen' := seen ++ [o] in
-    let it' := match i_kind it with
-               | KLink => mkI (i_rel it) KLink (i_mode it) (i_ft it) (i_data it)
-                              (find_link_target seen' o (i_link it))
-               | _ => it
-               end in
-    it' :: rewrite_links c seen' rest
-  end.
+Definition store_links (its : list item) : list item :=
+  map (fun it => match i_kind it with
+                 | KLink => mkI (i_rel it) KLink (i_mode it) (i_ft it) (i_data it) (find_link_target (i_link it))
+                 | _ => it
+                 end) its.
 
 (* ---- _sanitize_archive_arcname on the '/'-joined name, at the level of components *)
 Definition is_letter (z : Z) : bool := ((65 <=? z) && (z <=? 90)) || ((97 <=? z) && (z <=? 122)).
@@ -371,7 +348,7 @@ Definition source_tree (c : wctx) (t : node) : option node :=
 
 Definition walk_items (c : wctx) (t : node) : list item :=
   let its := filter (fun it => negb (skipped c it)) (items (canon t)) in
-  if c_deref c then its else rewrite_links c [] its.
+  if c_deref c then its else store_links its.
 
 (* writeall(path, arcname) -> the members of the archive, in order; Err: the exception writeall raises *)
 Definition walk (c : wctx) (t : node) : res (list entry) :=
@@ -606,10 +583,9 @@ Fixpoint t_node (n : node) : tree :=
   | Link tg => TL [TI 2; t_path tg]
   end.
 
-(* ctx: (abs base arc|() cwd|() deref) *)
+(* ctx: (abs base arc|() deref) *)
 Definition of_ctx (t : tree) : wctx :=
-  mkC (of_bool (tnth t 0)) (of_path (tnth t 1)) (of_opt of_path (tnth t 2)) (of_opt of_path (tnth t 3))
-      (of_bool (tnth t 4)).
+  mkC (of_bool (tnth t 0)) (of_path (tnth t 1)) (of_opt of_path (tnth t 2)) (of_bool (tnth t 3)).
 
 (* entry: (path (abs origin) attr ft empty data) *)
 Definition t_entry (e : entry) : tree :=
